@@ -48,7 +48,8 @@ STUBS = ['cflib.crazyflie.Timer -> virtual timer (records start/cancel; expires 
          'table (same mapping semantics for tuples of ints; a hash table would make the engine enumerate byte values)',
          'threading.Thread.start/is_alive/join (no OS thread); received packets are handed to cf.packet_received.call(pk) as '
          '_IncomingPacketHandler.run does (port dispatch is C07)', 'logging disabled']
-ASSUMPTIONS = ['context switches only at blocking calls: an event (send, timer callback, packet dispatch, close, open, link error) '
+ASSUMPTIONS = ['(identical patterns pending at the same time are admitted only in same-pattern[unanswered]) '
+               'context switches only at blocking calls: an event (send, timer callback, packet dispatch, close, open, link error) '
                'runs to completion before the next one starts',
                'two requests pending at the same time have different (header, expected bytes) patterns',
                'a timer object expires at most once and never after cancel() (threading.Timer contract)',
@@ -429,6 +430,8 @@ def h_history(sym):
         if st['cur'] is not None:
             # assumption: no two simultaneously pending requests with the same pattern
             for o in reqs:
+                if B.get('allow_same'):
+                    break
                 if o['pending'] and len(o['exp']) == len(r['exp']):
                     sym.assume(not (o['port'] == r['port'] and o['chan'] == r['chan'] and o['exp'] == r['exp']))
         env.tag = r
@@ -629,6 +632,13 @@ DELAYED = [
             note='a retry timer whose callback is delayed past the arrival of the answer / the close (the window in which '
                  'threading.Timer.cancel() comes too late): no retransmission, and the send lock is released'),
 ]
+DELAYED.append(
+    Harness('same-pattern[unanswered]', h_history,
+            quick=dict(p=2, concrete='same', events=6, kinds=(SEND, FIRE), nr=True, sessions=1, allow_same=True),
+            thorough=dict(p=3, concrete='same', events=7, kinds=(SEND, FIRE, CLOSE), nr=True, sessions=1, allow_same=True),
+            goals=('retransmitted', 'retransmitted-twice'), timeout=(300, 900),
+            note='two different requests whose expected-reply patterns are identical are pending at the same time and stay unanswered: '
+                 'each of them keeps being retransmitted (which of them an arriving packet would answer is not defined, so none arrives)'))
 DELAYED.append(
     Harness('callback-send', h_history,
             quick=dict(p=2, concrete='same', events=5, kinds=(SEND, FIRE, RX), nr=True, sessions=1, max_rx=2, dispatch=True, cb_send=True),
